@@ -81,6 +81,8 @@ def cells(tier, seed):
                 if D == 3 and si == 4:
                     continue
                 out.append({"kind": "value", "cls": cls, "D": D, "sig": si})
+    for D in (2, 3):
+        out.append({"kind": "layerwrapper", "D": D})
     return out
 
 
@@ -133,7 +135,43 @@ def _build(cfg):
     return m, in_sig, out_sig, bank
 
 
+def _layerwrapper(cfg, cx):
+    """ml.LayerWrapper / LayerWrapperAux apply the module to every type and hand each result back under ITS OWN type, in input order."""
+    import jax.numpy as jnp
+    import ginjax.geometric as geom
+    import ginjax.ml as ml
+    from jxsmt import sym as S, interp as I
+    D = cfg["D"]
+    N = 2
+    types = [((1, 0), 2), ((0, 1), 1), ((0, 0), 2), ((1, 1), 1)]
+    flags = tuple(i % 2 == 0 for i in range(D))
+    x = {kp: S.var_array(f"x{kp[0]}{kp[1]}", (c,) + (N,) * D + (D,) * kp[0]) for kp, c in types}
+    for nm in ("LayerWrapper", "LayerWrapperAux"):
+        meta = {}
+
+        def run(xb, nm=nm):
+            mi = geom.MultiImage({kp: xb[kp] for kp, _ in types}, D, flags)
+            if nm == "LayerWrapper":
+                out = ml.LayerWrapper(lambda im: im * 3 + 1, geom.Signature(tuple(types)))(mi)
+            else:
+                out, aux = ml.LayerWrapperAux(lambda im, aux: (im * 3 + 1, aux), geom.Signature(tuple(types)))(mi, None)
+                meta["aux"] = aux
+            meta.update(order=list(out.keys()), D=out.D, flags=tuple(out.is_torus))
+            return dict(out.data)
+        got = I.sym_call(run, x)
+        cx.structural(f"{nm}: types, order, D, flags", meta["order"] == [kp for kp, _ in types] and meta["D"] == D and meta["flags"] == flags
+                      and meta.get("aux") is None, f"{meta}", key=f"lw:{nm}:meta:D={D}")
+        for kp, _ in types:
+            if kp in got:
+                cx.equal(f"{nm}: block {kp} is the module applied to block {kp}", got[kp], x[kp].a * 3 + 1, key=f"lw:{nm}:{kp}:D={D}",
+                         replay=lambda vals, bvals, kp=kp, run=run: cx.deviates(
+                             np.asarray(run({q: jnp.asarray(cx.conc(v, vals)) for q, v in x.items()})[kp]), cx.conc(x[kp], vals) * 3 + 1))
+    cx.canary("canary[module not applied]", got[(1, 0)], x[(1, 0)].a)
+
+
 def run_cell(cfg, cx):
+    if cfg["kind"] == "layerwrapper":
+        return _layerwrapper(cfg, cx)
     if cfg["kind"] == "struct":
         _struct(cfg, cx)
     else:
